@@ -126,9 +126,9 @@ void apply_cfg(bxdecay0::decay0_generator & g, const GenCfg & c)
   if (c.cat == 1) {
     g.set_decay_dbd_level(c.level);
     g.set_decay_dbd_mode(static_cast<bxdecay0::dbd_mode_type>(c.mode));
-    if (c.emin_keV >= 0 || c.emax_keV >= 0) {
-      double lo = c.emin_keV >= 0 ? c.emin_keV * 1e-3 : 0.0;
-      double hi = c.emax_keV >= 0 ? c.emax_keV * 1e-3 : 5000.0;
+    if (c.has_window()) {
+      double lo = c.emin_keV != -1 ? c.emin_keV * 1e-3 : 0.0;
+      double hi = c.emax_keV != -1 ? c.emax_keV * 1e-3 : 5000.0;
       g.set_decay_dbd_esum_range(lo, hi);
     }
   }
